@@ -35,6 +35,9 @@ type Expect struct {
 	Calls json.RawMessage `json:"calls"`
 	// NoOut: do not compare output with Out (relation-only cases)
 	NoOut bool `json:"noout"`
+	// Always: spy counts that must hold whatever the outcome (e.g. a forbidden
+	// callback was never invoked although the render failed)
+	Always json.RawMessage `json:"always"`
 }
 
 type Cfg struct {
@@ -161,6 +164,15 @@ func registerSpies(e *twig.Engine, st *spyState) {
 				return b, nil
 			}
 			return true, nil
+		})
+	}
+	for name, id := range map[string]string{"sfz": "f1", "sfa": "a1"} {
+		id := id
+		e.AddFilter(name, func(v interface{}, args ...interface{}) (interface{}, error) {
+			if err := st.hit(id); err != nil {
+				return nil, err
+			}
+			return v, nil
 		})
 	}
 	e.AddFilter("vdump", func(v interface{}, args ...interface{}) (interface{}, error) {
@@ -395,6 +407,11 @@ func checkCase(c *Case, limit time.Duration) (res Result, hung bool) {
 				if o.counts[k] != v {
 					fail("calls", fmt.Sprintf("%s=%d", k, o.counts[k]), fmt.Sprintf("%s=%d", k, v))
 				}
+			}
+		}
+		for k, v := range countsOf(c.Expect.Always) {
+			if o.counts[k] != v {
+				fail("calls-always", fmt.Sprintf("%s=%d", k, o.counts[k]), fmt.Sprintf("%s=%d", k, v))
 			}
 		}
 		if c.Rel == "same" {
